@@ -31,6 +31,9 @@ CORPUS = os.path.join(vlib.ROOT, "corpus", "C03")
 #   null-member   compiled answer gets an extra `"zz": null` member
 #   int-to-str    compiled answer's first integer becomes a string
 #   unstable      second round trip answer differs
+#   anyof-untagged  emulates the seeded change of util.rs object_schemas_mutually_exclusive (`aa != bb`): every
+#                 flattened-union struct of an object anyOf becomes an untagged enum in the dump and answers like
+#                 one (the first branch that accepts reads the instance and drops what it does not declare)
 MUT = os.environ.get("VERIF_C03_MUTATE", "")
 NOANSWER = ("no answer",)
 
@@ -210,6 +213,52 @@ def unit_forms_to_null_payload(w, ext, adj):
     return w
 
 
+def added_defaults(doc, s, v, w, path=()):
+    """members of w that v does not have and whose property schema carries exactly that value as `default`:
+    [(path, property schema)]"""
+    out = []
+    s = resolve(doc, s)
+    if not isinstance(s, dict):
+        return out
+    subs = [b for kw in ("allOf", "oneOf", "anyOf") for b in s.get(kw, [])]
+    if isinstance(w, dict):
+        vv = v if isinstance(v, dict) else {}
+        for k, ps in s.get("properties", {}).items():
+            if k in w and k not in vv and isinstance(ps, dict) and "default" in resolve(doc, ps) and \
+                    exact_eq(resolve(doc, ps)["default"], w[k]):
+                out.append((path + (k,), ps))
+            elif k in w and k in vv:
+                out += added_defaults(doc, ps, vv[k], w[k], path + (k,))
+        for b in subs:
+            out += added_defaults(doc, b, v, w, path)
+    elif isinstance(w, list) and isinstance(v, list) and len(v) == len(w) and isinstance(s.get("items"), dict):
+        for n, (x, y) in enumerate(zip(v, w)):
+            out += added_defaults(doc, s["items"], x, y, path + (n,))
+    return out
+
+
+def invalid_schema_default(doc, ref, v, w):
+    """True when the output is invalid only because a schema `default` that is itself invalid under its own property
+    schema was filled in (the schema is outside the faithful fragment; accepting such a default is C06's subject)"""
+    ads = added_defaults(doc, ref, v, w)
+    if not ads:
+        return False
+    r = oracle.classify([(doc, [(ps, resolve(doc, ps)["default"]) for _, ps in ads])])[0]
+    bad = [p for (p, _), ok in zip(ads, r) if ok is not True]
+    if not bad:
+        return False
+    rep = json.loads(json.dumps(w))
+    for p in bad:
+        cur = rep
+        try:
+            for k in p[:-1]:
+                cur = cur[k]
+            del cur[p[-1]]
+        except (KeyError, IndexError, TypeError):
+            pass
+    return oracle.classify([(doc, [(ref, rep)])])[0][0] is True
+
+
 def classify_violation(ctx, ex, it, kinds, w):
     """-> finding dict or None.  Classes are decided by re-evaluation, not by name:
     (F1 — null at Optional Box<Option<_>> members — is fixed by b9da3ef: its corpus witnesses are regression cases);
@@ -239,6 +288,282 @@ def classify_violation(ctx, ex, it, kinds, w):
                 if len([x for x in r[:n] if x is True]) >= 2 and len([x for x in r[n:] if x is True]) == 1:
                     return f
     return None
+
+
+# ----------------------------------------------------------------- finding F4 (flattened-union structs)
+def anyof_object_defs(doc, dump):
+    """definitions that are an anyOf of object branches -> "flat" when typify rendered a flattened-union struct (all
+    of >= 2 members `#[serde(flatten)] Option<subtype>`: what convert_any_of emits for branches it finds non-exclusive),
+    "untagged" when it rendered an untagged enum (branches it found mutually exclusive)"""
+    out = {}
+    ents = dump["entries"]
+    for name, sch in doc.get("definitions", {}).items():
+        if not (isinstance(sch, dict) and isinstance(sch.get("anyOf"), list) and len(sch["anyOf"]) >= 2 and
+                all(isinstance(resolve(doc, b), dict) and resolve(doc, b).get("type") == "object" for b in sch["anyOf"])):
+            continue
+        tid = dump["ref_to_id"].get("#/" + name)
+        e = ents.get(str(tid)) if tid is not None else None
+        if not e:
+            continue
+        if e.get("kind") == "struct" and len(e["props"]) >= 2 and \
+                all(p["rename"]["k"] == "flatten" and ents.get(str(p["type_id"]), {}).get("kind") == "option"
+                    for p in e["props"]):
+            out[name] = "flat"
+        elif e.get("kind") == "enum" and e["tag"]["k"] == "untagged":
+            out[name] = "untagged"
+    return out
+
+
+def flat_union_defs(doc, dump):
+    return {n for n, k in anyof_object_defs(doc, dump).items() if k == "flat"}
+
+
+def exclusive_by_undeclared_required(a, b):
+    """typify util.rs object_schemas_mutually_exclusive, first test: a branch requires a property the other does not
+    declare (it ignores that the other branch is open)"""
+    pa, pb = set(a.get("properties", {})), set(b.get("properties", {}))
+    if not pa or not pb:
+        return False
+    return not set(a.get("required", [])) <= pb or not set(b.get("required", [])) <= pa
+
+
+def flat_union_positions(doc, flat, s, v, w, path=()):
+    """places where (v, w) sit at a $ref to a flattened-union definition: [(name, v_sub, w_sub, path)]"""
+    out = []
+    depth = 0
+    while isinstance(s, dict) and "$ref" in s and depth < 30:
+        name = s["$ref"].split("/")[-1]
+        if name in flat and isinstance(v, dict) and isinstance(w, dict):
+            return [(name, v, w, path)]
+        s = doc["definitions"][name]
+        depth += 1
+    if not isinstance(s, dict):
+        return out
+    if isinstance(v, dict) and isinstance(w, dict):
+        for k, ps in s.get("properties", {}).items():
+            if k in v and k in w:
+                out += flat_union_positions(doc, flat, ps, v[k], w[k], path + (k,))
+        ap = s.get("additionalProperties")
+        if isinstance(ap, dict):
+            for k in v:
+                if k in w and k not in s.get("properties", {}):
+                    out += flat_union_positions(doc, flat, ap, v[k], w[k], path + (k,))
+    elif isinstance(v, list) and isinstance(w, list) and len(v) == len(w) and isinstance(s.get("items"), dict):
+        for n, (x, y) in enumerate(zip(v, w)):
+            out += flat_union_positions(doc, flat, s["items"], x, y, path + (n,))
+    return out
+
+
+def flat_union_plan(doc, name, v):
+    """serde's flatten consumption for `struct { #[serde(flatten)] subtype_i: Option<S_i> }` on the entries of v in
+    text order: S_i takes every remaining entry whose key it declares, stops at the first value it rejects, and
+    what it took stays taken whether or not it succeeds.  Returns the value-validity queries needed."""
+    branches = [resolve(doc, b) for b in doc["definitions"][name]["anyOf"]]
+    qs = []
+    for i, b in enumerate(branches):
+        for k, x in v.items():
+            if k in b.get("properties", {}):
+                qs.append(((i, k), b["properties"][k], x))
+    return branches, qs
+
+
+def flat_union_objects(branches, v, okval, consume):
+    """-> per branch the object it gets to see (None when a taken value is rejected)"""
+    pool = list(v.items())
+    res = []
+    for i, b in enumerate(branches):
+        props = b.get("properties", {})
+        taken, failed = [], False
+        for k, x in pool:
+            if k in props:
+                taken.append(k)
+                if not okval[(i, k)]:
+                    failed = True
+                    break
+        res.append(None if failed else {k: x for k, x in pool if k in taken})
+        if consume:
+            pool = [(k, x) for k, x in pool if k not in taken]
+    return res
+
+
+def classify_f4(ex, pending):
+    """pending: [(rec, it)] with kinds within {declared-data-lost, invalid-output} in documents that have anyOf-of-objects
+    definitions (an output can also be INVALID: when every subtype fails the struct serialises as {}).
+    At a flattened-union position a member counts as declared when a branch that ACCEPTS the instance declares it
+    (a member only a rejecting branch declares is an additional property of the accepting ones: outside the
+    quantifier).  A departure is in class F4 when re-adding, at every such position, the members that the
+    consumption order explains (kept when every subtype sees all entries, lost when earlier subtypes consume theirs)
+    restores containment.  Three oracle batches for all of them.  -> list of "f4" | "outside" | None"""
+    plans = []
+    q0 = collections.OrderedDict()
+    q1 = collections.OrderedDict()
+    for n, (rec, it) in enumerate(pending):
+        doc = ex.docs[it["m"]]
+        kinds_of = anyof_object_defs(doc, ex.dumps[it["m"]])
+        ref = {"$ref": "#/definitions/" + it["name"]}
+        pos = flat_union_positions(doc, set(kinds_of), ref, rec["instance_declared_part"], rec["output"])
+        pl = []
+        for name, vs, ws, path in pos:
+            branches, qs = flat_union_plan(doc, name, vs)
+            if kinds_of[name] != "flat":
+                qs = []
+            pl.append((name, vs, ws, path, branches, qs, kinds_of[name]))
+            for i, b in enumerate(branches):
+                q0.setdefault(it["m"], []).append((n, len(pl) - 1, i, b, vs))
+            for key, sch, x in qs:
+                q1.setdefault(it["m"], []).append((n, len(pl) - 1, key, sch, x))
+        plans.append(pl)
+    accepts, okval = {}, {}
+    if q0:
+        r = oracle.classify([(ex.docs[m], [(b, x) for _, _, _, b, x in qs]) for m, qs in q0.items()])
+        for (m, qs), rr in zip(q0.items(), r):
+            for (n, pi, i, _, _), ok in zip(qs, rr):
+                accepts[(n, pi, i)] = ok is True
+    if q1:
+        r = oracle.classify([(ex.docs[m], [(sch, x) for _, _, _, sch, x in qs]) for m, qs in q1.items()])
+        for (m, qs), rr in zip(q1.items(), r):
+            for (n, pi, key, _, _), ok in zip(qs, rr):
+                okval[(n, pi, key)] = ok is True
+    q2 = collections.OrderedDict()
+    sims = {}
+    for n, (rec, it) in enumerate(pending):
+        for pi, (name, vs, ws, path, branches, qs, knd) in enumerate(plans[n]):
+            if knd != "flat":
+                continue
+            ov = {key: okval[(n, pi, key)] for key, _, _ in qs}
+            for mode in (True, False):
+                objs = flat_union_objects(branches, vs, ov, mode)
+                sims[(n, pi, mode)] = objs
+                for i, o in enumerate(objs):
+                    if o is not None:
+                        q2.setdefault(it["m"], []).append((n, pi, mode, i, branches[i], o))
+    okobj = {}
+    if q2:
+        r = oracle.classify([(ex.docs[m], [(b, o) for _, _, _, _, b, o in qs]) for m, qs in q2.items()])
+        for (m, qs), rr in zip(q2.items(), r):
+            for (n, pi, mode, i, _, _), ok in zip(qs, rr):
+                okobj[(n, pi, mode, i)] = ok is True
+    out = []
+    q3 = []
+    for n, (rec, it) in enumerate(pending):
+        vd2 = json.loads(json.dumps(rec["instance_declared_part"]))
+        w2 = json.loads(json.dumps(rec["output"]))
+        explained = set()
+        for pi, (name, vs, ws, path, branches, qs, knd) in enumerate(plans[n]):
+            acc = [i for i in range(len(branches)) if accepts.get((n, pi, i))]
+            declared = set()
+            for i in acc:
+                declared |= set(branches[i].get("properties", {}))
+            cur = vd2
+            for k in path:
+                cur = cur[k]
+            for k in list(cur):
+                if k not in declared:
+                    del cur[k]
+            if knd == "flat":
+                kept = {}
+                for mode in (True, False):
+                    ks = set()
+                    for i, o in enumerate(sims[(n, pi, mode)]):
+                        if o is not None and okobj.get((n, pi, mode, i)):
+                            ks |= set(o)
+                    kept[mode] = ks
+                lost = ((kept[False] - kept[True]) - set(ws)) & declared
+                tag = "f4"
+            else:
+                # untagged enum: the first accepting branch wins; a member only later accepting branches declare is
+                # dropped as unknown; in class F5 only when typify's "requires a property the other does not declare"
+                # test is what made the two branches exclusive
+                lost = set()
+                if len(acc) >= 2:
+                    first = branches[acc[0]]
+                    for k in cur:
+                        if k in ws or k in first.get("properties", {}):
+                            continue
+                        if any(k in branches[j].get("properties", {}) and
+                               exclusive_by_undeclared_required(first, branches[j]) for j in acc[1:]):
+                            lost.add(k)
+                tag = "f5"
+            if lost:
+                explained.add(tag)
+                cur = w2
+                for k in path:
+                    cur = cur[k]
+                for k in lost:
+                    cur[k] = vs[k]
+        if contained(prune(vd2), prune(rec["output"])) and "invalid-output" not in rec["kinds"]:
+            out.append("outside")
+        elif len(explained) == 1 and contained(prune(vd2), prune(w2)):
+            out.append(explained.pop())
+            if "invalid-output" in rec["kinds"]:      # the repaired output must be valid as well (F4 only)
+                if out[-1] == "f4":
+                    q3.append((n, it["m"], {"$ref": "#/definitions/" + it["name"]}, w2))
+                else:
+                    out[-1] = None
+        else:
+            out.append(None)
+    if q3:
+        r = oracle.classify([(ex.docs[m], [(ref, w2)]) for _, m, ref, w2 in q3])
+        for (n, _, _, _), rr in zip(q3, r):
+            if rr[0] is not True:
+                out[n] = None
+    return out
+
+
+# ----------------------------------------------------------------- overlapping object anyOf families (random stream)
+def overlap_docs(seed, n):
+    """documents whose definitions are anyOf families of object branches that are NOT mutually exclusive: a shared
+    property pinned to a constant (and required) in one branch only, plain in the others; both orders; 2-3 branches;
+    plus a wrapper referencing the family.  Instances: every combination of shared value x own members, in two key
+    orders (serde's flatten consumption is order sensitive); the oracle decides validity."""
+    import random
+    out = []
+    TY = [({"type": "integer"}, [3, 0]), ({"type": "string"}, ["s", ""]), ({"type": "boolean"}, [True, False]),
+          ({"type": "array", "items": {"type": "integer"}}, [[1, 2], []])]
+    for d in range(n):
+        rnd = random.Random(seed * 7907 + d)
+        defs, inst = {}, {}
+        for fam in range(rnd.choice([1, 2])):
+            shared = rnd.choice(["kind", "mode", "type", "tag-x"])
+            const = rnd.choice(["a", "parcel", "x-1"])
+            owns = rnd.sample(["weight", "carrier", "fooBar", "n1", "zed"], 3)
+            tys = [rnd.choice(TY) for _ in owns]
+            pinned = {"type": "object", "properties": {shared: {"type": "string", "enum": [const]}, owns[0]: tys[0][0]},
+                      "required": [shared] + ([owns[0]] if rnd.random() < 0.3 else [])}
+            loose = {"type": "object", "properties": {shared: {"type": "string"}, owns[1]: tys[1][0]}}
+            req = ([shared] if rnd.random() < 0.3 else []) + ([owns[1]] if rnd.random() < 0.3 else [])
+            if req:
+                loose["required"] = req
+            branches = [pinned, loose]
+            if rnd.random() < 0.5:
+                third = {"type": "object", "properties": {owns[2]: tys[2][0]}}
+                if rnd.random() < 0.5:
+                    third["properties"][shared] = {"type": "string"}
+                branches.append(third)
+            rnd.shuffle(branches)
+            name = "Fam%d" % fam
+            defs[name] = {"anyOf": branches}
+            vs = []
+            for sv in (None, const, "other"):
+                for mask in range(8):
+                    v = {}
+                    if sv is not None:
+                        v[shared] = sv
+                    for b in range(3):
+                        if mask >> b & 1 and (b < 2 or len(branches) == 3):
+                            v[owns[b]] = tys[b][1][rnd.randrange(2)]
+                    vs.append(v)
+                    if len(v) > 1 and rnd.random() < 0.5:
+                        vs.append(dict(reversed(list(v.items()))))
+            inst[name] = vs
+            defs["Wrap%d" % fam] = {"type": "object", "properties": {"inner": {"$ref": "#/definitions/" + name},
+                                                                      "n": {"type": "integer"}}, "required": ["inner"]}
+            inst["Wrap%d" % fam] = [{"inner": v} for v in vs[::5]] + [{"n": 1, "inner": vs[-1]}]
+        out.append(("gen-overlap-%d.json" % d,
+                    {"$schema": "http://json-schema.org/draft-07/schema#", "definitions": defs},
+                    ["anyof_overlap"], inst))
+    return out
+
 
 
 # ----------------------------------------------------------------- Coq parts
@@ -338,8 +663,14 @@ def run(ctx):
     ]
     vlib.build_harness(bins=("vh",))
     faithful.CORPUS = CORPUS      # curated C03 corpus heads the same compiled world
-    ex = faithful.build(ctx, n_sup=30 if quick else 160, n_full=40 if quick else 220, n_inst=3 if quick else 6,
-                        world_name="c03" + T)
+    base_curated = faithful.curated_docs
+    n_overlap = 6 if quick else 40
+    faithful.curated_docs = lambda: base_curated() + overlap_docs(ctx.seed, n_overlap)   # + seeded overlapping anyOf families
+    try:
+        ex = faithful.build(ctx, n_sup=30 if quick else 160, n_full=40 if quick else 220, n_inst=3 if quick else 6,
+                            world_name="c03" + T)
+    finally:
+        faithful.curated_docs = base_curated
     ctx.coverage["distribution"] = faithful.distribution(ex)
     w = ex.world
     ctx.coverage["rule"] = ("curated corpus corpus/C03 + documents from the seeded grammar (supported + full stream); per "
@@ -359,6 +690,36 @@ def run(ctx):
     import convert_check
     convert_check.convert_obligations(ctx, "C03")
 
+    if MUT == "anyof-untagged":
+        def simple_accepts(b, v):
+            if not isinstance(v, dict) or not set(b.get("required", [])) <= set(v):
+                return False
+            for k, ps in b.get("properties", {}).items():
+                if k in v:
+                    if "enum" in ps and v[k] not in ps["enum"]:
+                        return False
+                    ty = {"string": str, "integer": int, "boolean": bool, "array": list}.get(ps.get("type"))
+                    if ty and (not isinstance(v[k], ty) or (ty is int and isinstance(v[k], bool))):
+                        return False
+            return True
+        for it in ex.items:
+            doc = ex.docs[it["m"]]
+            d = ex.dumps.get(it["m"])
+            if d is None or anyof_object_defs(doc, d).get(it["name"]) != "flat" or "ok" not in it["out"]:
+                continue
+            for b in doc["definitions"][it["name"]]["anyOf"]:
+                if simple_accepts(b, it["v"]):
+                    it["out"] = {"ok": {k: x for k, x in it["v"].items() if k in b.get("properties", {})}}
+                    break
+        for m, d in ex.dumps.items():
+            for name, knd in anyof_object_defs(ex.docs[m], d).items():
+                if knd == "flat":
+                    e = d["entries"][str(d["ref_to_id"]["#/" + name])]
+                    e["kind"] = "enum"
+                    e["tag"] = {"k": "untagged"}
+                    e["variants"] = []
+                    e["bespoke"] = []
+
     # ---- direct evaluation of the property text on compiled code
     cand = [it for it in ex.items if it["valid"] is True and it["accepted"]]
     for it in cand:
@@ -373,6 +734,9 @@ def run(ctx):
     assert [it["m"] for it in cand] == sorted(it["m"] for it in cand) and len(verd) == len(cand)
     pos = {id(it): n for n, it in enumerate(cand)}
     viol, outside, offrag = [], [], []
+    f4 = next((f for f in ctx.findings_for() if f.get("class") == "flattened-union-earlier-subtype-consumes-shared-member"), None)
+    f5 = next((f for f in ctx.findings_for() if f.get("class") == "anyof-open-objects-deemed-exclusive-by-undeclared-required"), None)
+    f4_pending = []
     not_fragment = set()
     for fn in os.listdir(CORPUS):
         if fn.endswith(".json") and json.load(open(os.path.join(CORPUS, fn))).get("fragment") is False:
@@ -406,16 +770,45 @@ def run(ctx):
                    "instance_declared_part": vd, "output": wv, "second_output": o2,
                    "output_valid": verd[pos[id(it)]], "stream": ex.stream[it["m"]], "declared_only": it["declared_only"]}
             f = classify_violation(ctx, ex, it, kinds, wv)
+            if f is None and "declared-data-lost" in kinds and set(kinds) <= {"declared-data-lost", "invalid-output"} and \
+                    (f4 is not None or f5 is not None) and \
+                    anyof_object_defs(doc, ex.dumps[it["m"]]):
+                f4_pending.append((rec, it))
+                continue
             if f is not None:
                 ctx.known_finding(f["id"], "%s: %s (definition %s of %s, instance %s -> %s)" % (
                     f["id"], f["summary"][:160], it["name"], ex.stream[it["m"]], json.dumps(it["v"])[:80],
                     json.dumps(wv)[:80]))
+            elif kinds == ["invalid-output"] and invalid_schema_default(doc, ref, it["v"], wv):
+                rec["note"] = "a schema default that violates its own property schema was filled in"
+                offrag.append(rec)
             elif ex.stream[it["m"]] in not_fragment:
                 offrag.append(rec)
             elif it["declared_only"]:
                 viol.append(rec)
             else:
                 outside.append(rec)
+    # finding F4 is decided for all candidates at once (two oracle batches)
+    n_f4 = n_f5 = 0
+    if f4_pending:
+        for (rec, it), yes in zip(f4_pending, classify_f4(ex, f4_pending)):
+            if yes == "outside":
+                outside.append(rec)
+            elif (yes == "f4" and f4 is not None) or (yes == "f5" and f5 is not None):
+                ff = f4 if yes == "f4" else f5
+                n_f4 += yes == "f4"
+                n_f5 += yes == "f5"
+                ctx.known_finding(ff["id"], "%s: %s (definition %s of %s, instance %s -> %s)" % (
+                    ff["id"], ff["summary"][:160], it["name"], ex.stream[it["m"]], json.dumps(it["v"])[:80],
+                    json.dumps(rec["output"])[:80]))
+            elif ex.stream[it["m"]] in not_fragment:
+                offrag.append(rec)
+            elif it["declared_only"]:
+                viol.append(rec)
+            else:
+                outside.append(rec)
+    ctx.coverage["finding_F4_instances"] = n_f4
+    ctx.coverage["finding_F5_instances"] = n_f5
     ctx.coverage["direct_property_evaluations"] = len(cand)
     ctx.coverage["departures_by_stream_and_kind"] = dict(collections.Counter(
         "%s %s %s" % (r["stream"], r["definition"], "+".join(r["kinds"])) for r in viol + outside))
@@ -425,7 +818,7 @@ def run(ctx):
         ctx.log("departures:", json.dumps(ctx.coverage["departures_by_stream_and_kind"]))
     ctx.coverage["instances_with_undeclared_members"] = len([it for it in cand if not it["declared_only"]])
     ctx.coverage["outside_quantifier_departures"] = len(outside)
-    ctx.coverage["departures_on_curated_documents_outside_the_faithful_fragment"] = [
+    ctx.coverage["departures_on_documents_outside_the_faithful_fragment"] = [
         {"stream": r["stream"], "kinds": r["kinds"], "instance": r["instance"], "output": r["output"]} for r in offrag]
     ctx.coverage["skipped_recursion_limit"] = rec_skipped
     ctx.coverage["outputs_differing_from_input"] = len([it for it in cand if not exact_eq(it["w"], it["v"])])
